@@ -848,7 +848,7 @@ def permute_classes(arr, perm, axis):
     return np.take(arr, perm, axis=axis)
 
 
-def ill_conditioned(model, case):
+def ill_conditioned(model, case, bingham_limit=-1e6):
     """the fit sits on a numerical guard (eigenvalue floor, concentration
     clip, vanishing weight): rounding errors are amplified by up to
     1/floor, so metamorphic / differential comparisons are not judged"""
@@ -871,7 +871,7 @@ def ill_conditioned(model, case):
             return True
     if kind == 'cbmm':
         lam = np.asarray(model.complex_bingham.covariance_eigenvalues)
-        if np.any(lam < -1e6):
+        if np.any(lam < bingham_limit):
             return True
     if kind in ('gmm', 'gcacgmm'):
         # a collapsing Gaussian component (covariance singular up to rounding)
